@@ -24,3 +24,21 @@ Definition check_C20 (cs : list (list op * trace)) : list nat * bool * nat :=
   | [(om, tm); (of, tf)] => ([corr om tm; corr of tf], twin_ok om tm of tf, 0)
   | _ => ([], false, 0)
   end.
+
+(* C06: the same registration set built repeatedly and in permuted registration orders: every
+   variant agrees with the model, and from Build on all variants are equivalent (same verdict,
+   same results, isomorphic object graphs) *)
+Fixpoint from_build (ops : list op) (tr : trace) : trace :=
+  match ops, tr with
+  | o :: ops', s :: tr' => match o with OBuild _ => tr | _ => from_build ops' tr' end
+  | _, _ => []
+  end.
+Definition check_C06 (cs : list (list op * trace)) : list nat * bool * nat :=
+  (map (fun '(o, t) => corr o t) cs,
+   match cs with
+   | (o0, t0) :: rest =>
+       negb (match from_build o0 t0 with [] => true | _ => false end) &&
+       forallb (fun '(o, t) => traces_equiv [] [] (from_build o0 t0) (from_build o t)) rest
+   | [] => false
+   end, 0).
+Definition check_C19 := fun (_ : list (list op * trace)) => (@nil nat, false, 0).
